@@ -26,7 +26,22 @@ import os
 SLOTS = ["prediction_strategy", "mean_cache", "covar_cache", "interp_inner_prod", "interp_response_cache",
          "fantasy_mean_cache", "fantasy_covar_cache", "cholesky_factor", "prior_distribution_memo",
          "variational_distribution_memo", "pseudo_points_memo", "amortized_exact_gp",
-         "_cached_kernel_mat", "_cached_kernel_inv_root"]
+         "_cached_kernel_mat", "_cached_kernel_inv_root",
+         "covar_cache[fast_pred_samples]", "fantasy_covar_cache[fast_pred_samples]"]
+# memo names whose value has two representations -> slot of the representation built with the selecting setting ON
+VARIANT_SLOT = {"covar_cache": 14, "fantasy_covar_cache": 15}
+
+# prediction-relevant settings (ids = bit positions of CacheSM.Cell.ofMask; must agree with CacheSM.settingNames)
+SETTINGS = ["fast_pred_var", "fast_pred_samples", "lazily_evaluate_kernels", "max_cholesky_size", "detach_test_caches",
+            "skip_posterior_variances", "max_eager_kernel_size", "trace_mode"]
+# guard atoms of the access walker: settings.<name>.on()  ->  (atom, Lean expression over the cell `c`)
+SETTING_ATOM = {"fast_pred_var": ("fpv", "c.fpv"), "fast_pred_samples": ("fps", "c.fps"),
+                "lazily_evaluate_kernels": ("lazy", "(!c.eager)"), "detach_test_caches": ("detach", "(!c.keepGraph)"),
+                "skip_posterior_variances": ("skip", "c.skip"), "trace_mode": ("trace", "c.trace")}
+ATOM_LEAN = dict(list(SETTING_ATOM.values()) + [("wiski", "w"), ("nan", "nan")])
+ATOM_SETTING = {a: n for n, (a, _) in SETTING_ATOM.items()}
+STRATEGIES = ["DefaultPredictionStrategy", "InterpolatedPredictionStrategy", "RFFPredictionStrategy", "SGPRPredictionStrategy"]
+MEMO_API = ("pop_from_cache", "add_to_cache", "get_from_cache")
 
 # class name -> file (relative to the repo); order = class ids (must agree with CacheSM.classNames)
 CLASSES = [
@@ -235,6 +250,459 @@ def self_calls(fn):
     return out
 
 
+# ------------------------------------------------------------------------------------------ access walker
+#
+# Derives what a method of a prediction strategy (`exact_prediction`, `get_fantasy_strategy`) does to the memo table
+# of `self`, as a decision tree over settings guards:
+#
+#   tree ::= ("ops", (op, …), tree) | ("if", guard, tree, tree) | ("end",) | ("raise",)
+#   op   ::= ("read", name) | ("pop", name) | ("revalidate", name) | ("born", name)
+#   guard ::= ("atom", a) | ("not", g) | ("and", (g, …)) | ("or", (g, …))
+#
+# The walk follows the statements in order (continuation passing), inlines un-cached methods / properties of `self`
+# resolved through the MRO of the strategy class (`super(…).m(…)` = next definition after the calling class), turns
+# `self.<@cached name>` into a read, recognises guards over the settings atoms (directly or through a local bound to
+# one), `self.uses_wiski` and `nan_policy != "ignore"`; every other test is a *data guard*: both branches are
+# walked and must do the same to the memo table (a `raise` branch is ignored), otherwise TranslateError.
+
+END, RAISE = ("end",), ("raise",)
+
+
+def mk_ops(ops, nxt):
+    ops = tuple(ops)
+    if not ops:
+        return nxt
+    if nxt[0] == "ops":
+        return ("ops", ops + nxt[1], nxt[2])
+    return ("ops", ops, nxt)
+
+
+def mk_if(g, a, b):
+    return a if a == b else ("if", g, a, b)
+
+
+def g_not(g):
+    return g[1] if g[0] == "not" else ("not", g)
+
+
+def render_guard(g):
+    if g[0] == "atom":
+        return ATOM_LEAN[g[1]]
+    if g[0] == "not":
+        return "(!" + render_guard(g[1]) + ")"
+    return "(" + (" && " if g[0] == "and" else " || ").join(render_guard(x) for x in g[1]) + ")"
+
+
+def guard_atoms(g):
+    if g[0] == "atom":
+        return {g[1]}
+    if g[0] == "not":
+        return guard_atoms(g[1])
+    return set().union(*[guard_atoms(x) for x in g[1]])
+
+
+def tree_ops(t):
+    """every op anywhere in the tree, in walk order"""
+    if t[0] == "ops":
+        return list(t[1]) + tree_ops(t[2])
+    if t[0] == "if":
+        return tree_ops(t[2]) + [o for o in tree_ops(t[3])]
+    return []
+
+
+def is_settings_call(node, attrs=("on", "off")):
+    """`settings.<name>.<attr>()` -> (name, attr)"""
+    if (isinstance(node, ast.Call) and not node.args and not node.keywords and isinstance(node.func, ast.Attribute)
+            and node.func.attr in attrs and isinstance(node.func.value, ast.Attribute)
+            and isinstance(node.func.value.value, ast.Name) and node.func.value.value.id == "settings"):
+        return node.func.value.attr, node.func.attr
+    return None
+
+
+def is_property(fn):
+    return any(isinstance(d, ast.Name) and d.id == "property" for d in fn.decorator_list)
+
+
+def is_super_call(f):
+    """`super().m` / `super(C, self).m` -> (C | None, m)"""
+    if (isinstance(f, ast.Attribute) and isinstance(f.value, ast.Call) and isinstance(f.value.func, ast.Name)
+            and f.value.func.id == "super"):
+        a = f.value.args
+        if not a:
+            return None, f.attr
+        if len(a) == 2 and isinstance(a[0], ast.Name) and isinstance(a[1], ast.Name) and a[1].id == "self":
+            return a[0].id, f.attr
+        raise TranslateError(f"super call outside the vocabulary: `{_src(f)}`")
+    return False
+
+
+class Walker:
+    def __init__(self, src, cls):
+        self.src, self.cls = src, cls
+
+    # ---- resolution
+    def lookup(self, name, after=None):
+        mro = self.src.mro(self.cls)
+        if after is not None:
+            if after not in mro:
+                raise TranslateError(f"super({after}, self) on an instance of {self.cls}")
+            mro = mro[mro.index(after) + 1:]
+        for c in mro:
+            m = self.src.methods(c)
+            if name in m:
+                return c, m[name]
+        return None
+
+    def touches_memo(self, node):
+        """does the node (syntactically) reach the memo table of `self`?"""
+        for n in ast.walk(node):
+            if is_self_attr(n) and self.lookup(n.attr) is not None:
+                return True
+            if isinstance(n, ast.Name) and n.id in MEMO_API + ("super",):
+                return True
+        return False
+
+    # ---- guards
+    def guard(self, node, env):
+        """settings guard -> guard tuple; data guard -> None"""
+        if isinstance(node, ast.Name) and env.get(node.id, (None,))[0] == "guard":
+            return env[node.id][1]
+        sc = is_settings_call(node)
+        if sc is not None:
+            name, attr = sc
+            if name not in SETTING_ATOM:
+                raise TranslateError(f"guard on a setting outside the vocabulary: `{_src(node)}`")
+            g = ("atom", SETTING_ATOM[name][0])
+            return g if attr == "on" else ("not", g)
+        if is_self_attr(node, "uses_wiski"):
+            return ("atom", "wiski")
+        if (isinstance(node, ast.Compare) and len(node.ops) == 1 and isinstance(node.left, ast.Name)
+                and env.get(node.left.id, (None,))[0] == "nan" and isinstance(node.comparators[0], ast.Constant)):
+            if node.comparators[0].value == "ignore":
+                if isinstance(node.ops[0], ast.NotEq):
+                    return ("atom", "nan")
+                if isinstance(node.ops[0], ast.Eq):
+                    return ("not", ("atom", "nan"))
+            return None      # which non-default policy: a data guard
+        if isinstance(node, ast.UnaryOp) and isinstance(node.op, ast.Not):
+            g = self.guard(node.operand, env)
+            return None if g is None else g_not(g)
+        if isinstance(node, ast.BoolOp):
+            gs = [self.guard(v, env) for v in node.values]
+            if all(g is None for g in gs):
+                return None
+            if any(g is None for g in gs):
+                raise TranslateError(f"guard mixes settings and data: `{_src(node)}`")
+            return ("and" if isinstance(node.op, ast.And) else "or", tuple(gs))
+        return None
+
+    def merge(self, a, b, where):
+        if a == b or b == RAISE:
+            return a
+        if a == RAISE:
+            return b
+        raise TranslateError(f"memo access depends on a guard outside the vocabulary: `{where}`")
+
+    def branch(self, test, env, frame, kthen, kelse):
+        def k(env2):
+            g = self.guard(test, env2)
+            if g is not None:
+                return mk_if(g, kthen(env2), kelse(env2))
+            return self.merge(kthen(env2), kelse(env2), _src(test))
+        return self.expr(test, env, frame, k)
+
+    # ---- two-representation memo values
+    def variant_of(self, fn):
+        """`if settings.S.on(): … V = (e, None) else: … V = (None, e')`, `return V` -> (S, index used when S is on)"""
+        body = [s for s in fn.body if not is_docstring(s)]
+        if not body or not (isinstance(body[-1], ast.Return) and isinstance(body[-1].value, ast.Name)):
+            return None
+        v = body[-1].value.id
+
+        def last_pair(stmts):
+            out = None
+            for st in stmts:
+                if (isinstance(st, ast.Assign) and len(st.targets) == 1 and isinstance(st.targets[0], ast.Name)
+                        and st.targets[0].id == v):
+                    out = st.value
+            if isinstance(out, ast.Tuple) and len(out.elts) == 2:
+                nones = [isinstance(e, ast.Constant) and e.value is None for e in out.elts]
+                if sum(nones) == 1:
+                    return nones.index(False)
+            return None
+        for st in body:
+            if isinstance(st, ast.If) and st.orelse:
+                sc = is_settings_call(st.test)
+                i, j = last_pair(st.body), last_pair(st.orelse)
+                if sc is not None and i is not None and j is not None and i != j:
+                    name, attr = sc
+                    if name not in SETTINGS:
+                        raise TranslateError(f"{fn.name}: representation selected by `{name}` (outside the vocabulary)")
+                    return (name, i) if attr == "on" else (name, j)
+        return None
+
+    def decl(self, memo_name):
+        """(defining class, function) of the @cached method computing `memo_name` on instances of the class"""
+        for c in self.src.mro(self.cls):
+            for mname, fn in self.src.methods(c).items():
+                cd = cached_decorator(fn)
+                if cd is not None and cd[0] == memo_name and self.lookup(mname)[1] is fn:
+                    return c, fn
+        return None
+
+    def variant(self, memo_name):
+        d = self.decl(memo_name)
+        return None if d is None else self.variant_of(d[1])
+
+    def variant_mismatch(self, test, env):
+        """`(s and X[i] is None) or (not s and X[j] is None)`, X a local holding `self.<two-representation memo>`
+        -> memo name; something that looks like it but is not -> TranslateError; anything else -> None"""
+        subs = [n for n in ast.walk(test) if isinstance(n, ast.Subscript) and isinstance(n.value, ast.Name)
+                and env.get(n.value.id, (None,))[0] == "cached"]
+        if not subs:
+            return None
+        name = env[subs[0].value.id][1]
+        var = self.variant(name)
+        bad = TranslateError(f"test on the cached `{name}` outside the vocabulary: `{_src(test)}`")
+        if var is None or not (isinstance(test, ast.BoolOp) and isinstance(test.op, ast.Or) and len(test.values) == 2):
+            raise bad
+        setting, idx_on = var
+        want = {(True, idx_on), (False, 1 - idx_on)}     # (setting on?, component that must not be None)
+        got = set()
+        for v in test.values:
+            if not (isinstance(v, ast.BoolOp) and isinstance(v.op, ast.And) and len(v.values) == 2):
+                raise bad
+            g, cmp_ = self.guard(v.values[0], env), v.values[1]
+            if not (isinstance(cmp_, ast.Compare) and len(cmp_.ops) == 1 and isinstance(cmp_.ops[0], ast.Is)
+                    and isinstance(cmp_.comparators[0], ast.Constant) and cmp_.comparators[0].value is None
+                    and isinstance(cmp_.left, ast.Subscript) and isinstance(cmp_.left.value, ast.Name)
+                    and env.get(cmp_.left.value.id) == ("cached", name) and isinstance(cmp_.left.slice, ast.Constant)):
+                raise bad
+            atom = ("atom", SETTING_ATOM[setting][0])
+            if g == atom:
+                got.add((True, cmp_.left.slice.value))
+            elif g == ("not", atom):
+                got.add((False, cmp_.left.slice.value))
+            else:
+                raise bad
+        if got != want:
+            raise bad
+        return name
+
+    # ---- statements
+    def block(self, stmts, env, frame, knext):
+        if not stmts:
+            return knext(env)
+        st, rest = stmts[0], stmts[1:]
+
+        def cont(env2):
+            return self.block(rest, env2, frame, knext)
+        if is_docstring(st) or isinstance(st, (ast.Pass, ast.Import, ast.ImportFrom)):
+            return cont(env)
+        if isinstance(st, ast.Return):
+            return self.expr(st.value, env, frame, lambda e: frame["kret"]())
+        if isinstance(st, ast.Raise):
+            return RAISE
+        if isinstance(st, ast.Expr):
+            return self.expr(st.value, env, frame, cont)
+        if isinstance(st, (ast.Assign, ast.AnnAssign, ast.AugAssign)):
+            targets = st.targets if isinstance(st, ast.Assign) else [st.target]
+            for t in targets:
+                if isinstance(t, ast.Name) or is_self_attr(t):
+                    continue
+                if isinstance(t, (ast.Tuple, ast.List)) and all(isinstance(e, ast.Name) for e in t.elts):
+                    continue
+                if self.touches_memo(t):
+                    raise TranslateError(f"assignment target outside the vocabulary: `{_src(st)}`")
+            return self.expr(st.value, env, frame, lambda e: cont(self.bind(e, targets, st.value)))
+        if isinstance(st, ast.If):
+            vm = self.variant_mismatch(st.test, env)
+            if vm is not None:
+                x = [n for n in ast.walk(st.test) if isinstance(n, ast.Subscript)][0].value.id
+                ok = (not st.orelse and len(st.body) == 2 and _src(st.body[0]) == f"pop_from_cache(self, '{vm}')"
+                      and _src(st.body[1]) == f"{x} = self.{vm}")
+                if not ok:
+                    raise TranslateError(f"re-validation of `{vm}` is not `pop_from_cache(self, …); {x} = self.{vm}`")
+                return mk_ops([("revalidate", vm)], cont(env))
+            return self.branch(st.test, env, frame, lambda e: self.block(st.body, e, frame, cont),
+                               lambda e: self.block(st.orelse, e, frame, cont))
+        if self.touches_memo(st):
+            raise TranslateError(f"statement outside the vocabulary of the access walker: `{_src(st)[:80]}`")
+        return cont(env)
+
+    def bind(self, env, targets, value):
+        env = dict(env)
+        for t in targets:
+            for n in ast.walk(t):
+                if isinstance(n, ast.Name):
+                    env.pop(n.id, None)
+        if len(targets) == 1 and isinstance(targets[0], ast.Name):
+            name = targets[0].id
+            g = self.guard(value, env) if isinstance(value, (ast.Call, ast.Name, ast.UnaryOp)) else None
+            if g is not None:
+                env[name] = ("guard", g)
+            elif _src(value) == "settings.observation_nan_policy.value()":
+                env[name] = ("nan",)
+            elif is_self_attr(value):
+                r = self.lookup(value.attr)
+                cd = cached_decorator(r[1]) if r is not None else None
+                if cd is not None:
+                    env[name] = ("cached", cd[0])
+            elif isinstance(value, ast.Call) and is_self_attr(value.func, "__class__"):
+                env[name] = ("newstrat",)
+        return env
+
+    # ---- expressions (evaluation order, continuation passing)
+    def seq(self, nodes, env, frame, k):
+        if not nodes:
+            return k(env)
+        return self.expr(nodes[0], env, frame, lambda e: self.seq(nodes[1:], e, frame, k))
+
+    def expr(self, node, env, frame, k):
+        if node is None or not self.touches_memo(node):
+            return k(env)
+        if isinstance(node, ast.IfExp):
+            return self.branch(node.test, env, frame, lambda e: self.expr(node.body, e, frame, k),
+                               lambda e: self.expr(node.orelse, e, frame, k))
+        if isinstance(node, ast.BoolOp):
+            if any(self.touches_memo(v) for v in node.values[1:]):
+                raise TranslateError(f"memo access under short-circuit evaluation: `{_src(node)}`")
+            return self.expr(node.values[0], env, frame, k)
+        if isinstance(node, (ast.Lambda, ast.ListComp, ast.SetComp, ast.DictComp, ast.GeneratorExp)):
+            raise TranslateError(f"memo access inside a comprehension / lambda: `{_src(node)[:80]}`")
+        if is_self_attr(node):
+            r = self.lookup(node.attr)
+            if r is None:
+                return k(env)
+            owner, fn = r
+            cd = cached_decorator(fn)
+            if cd is not None:
+                return mk_ops([("read", cd[0])], k(env))
+            if is_property(fn):
+                return self.inline(owner, fn, [], env, frame, k)
+            return k(env)
+        if isinstance(node, ast.Call):
+            f = node.func
+            args = list(node.args) + [kw.value for kw in node.keywords]
+            if isinstance(f, ast.Name) and f.id in MEMO_API:
+                if not (len(node.args) >= 2 and isinstance(node.args[1], ast.Constant) and isinstance(node.args[1].value, str)):
+                    raise TranslateError(f"memo call without a literal name: `{_src(node)}`")
+                tgt, name = node.args[0], node.args[1].value
+                if isinstance(tgt, ast.Name) and tgt.id == "self":
+                    op = {"pop_from_cache": "pop", "get_from_cache": "read"}.get(f.id)
+                    if op is None:
+                        raise TranslateError(f"`{_src(node)[:80]}` on self during a prediction (outside the vocabulary)")
+                elif isinstance(tgt, ast.Name) and env.get(tgt.id) == ("newstrat",) and f.id == "add_to_cache":
+                    op = "born"
+                else:
+                    raise TranslateError(f"memo call on `{_src(tgt)}` (outside the vocabulary)")
+                return self.seq(args[2:], env, frame, lambda e: mk_ops([(op, name)], k(e)))
+            sup = is_super_call(f)
+            if sup:
+                after, m = sup
+                r = self.lookup(m, after=after or frame["owner"])
+                if r is None:
+                    raise TranslateError(f"`{_src(f)}`: no definition further up the MRO of {self.cls}")
+                return self.seq(args, env, frame, lambda e: self.inline(r[0], r[1], node.args, e, frame, k))
+            if is_self_attr(f):
+                r = self.lookup(f.attr)
+                if r is None:
+                    return self.seq(args, env, frame, k)
+                owner, fn = r
+                cd = cached_decorator(fn)
+                if cd is not None:
+                    return self.seq(args, env, frame, lambda e: mk_ops([("read", cd[0])], k(e)))
+                if is_property(fn):      # calling the value of a property
+                    return self.inline(owner, fn, [], env, frame, lambda e: self.seq(args, e, frame, k))
+                return self.seq(args, env, frame, lambda e: self.inline(owner, fn, node.args, e, frame, k))
+            head = [f.value] if isinstance(f, ast.Attribute) else ([] if isinstance(f, ast.Name) else [f])
+            return self.seq(head + args, env, frame, k)
+        kids = [c for c in ast.iter_child_nodes(node) if isinstance(c, ast.expr)]
+        return self.seq(kids, env, frame, k)
+
+    def inline(self, owner, fn, argnodes, env, frame, k):
+        key = (owner, fn.name)
+        stack = frame["stack"]
+        if key in stack or len(stack) > 12:
+            raise TranslateError(f"recursive / too deep inlining at {owner}.{fn.name}")
+        params = [a.arg for a in fn.args.args][1:]
+        new = {}
+        for p_, a in zip(params, argnodes):
+            if isinstance(a, ast.Name) and a.id in env:
+                new[p_] = env[a.id]
+        return self.block(fn.body, new, {"owner": owner, "stack": stack + (key,), "kret": lambda: k(env)}, lambda e: k(env))
+
+    # ---- entry points
+    def walk(self, method):
+        r = self.lookup(method)
+        if r is None:
+            raise TranslateError(f"{self.cls}.{method} not found")
+        return self.resolve(self.inline(r[0], r[1], [], {}, {"owner": None, "stack": ()}, lambda e: END), frozenset())
+
+    def always_revalidated(self, ops, nxt, name):
+        for o in ops:
+            if o == ("revalidate", name):
+                return True
+            if o[1] == name:
+                return False
+        if nxt[0] == "ops":
+            return self.always_revalidated(nxt[1], nxt[2], name)
+        if nxt[0] == "if":
+            rs = {self.always_revalidated((), b, name) for b in (nxt[2], nxt[3]) if b != RAISE}
+            if len(rs) > 1:
+                raise TranslateError(f"`{name}` is re-validated on some paths only (outside the vocabulary)")
+            return rs.pop() if rs else False
+        return False
+
+    def resolve(self, t, seen):
+        """reads of two-representation names -> ("readKeyed", name, setting, revalidated); repeated reads dropped"""
+        if t[0] == "if":
+            return mk_if(t[1], self.resolve(t[2], seen), self.resolve(t[3], seen))
+        if t[0] != "ops":
+            return t
+        out = []
+        for i, o in enumerate(t[1]):
+            if o[0] == "revalidate":
+                if o[1] not in seen:
+                    raise TranslateError(f"re-validation of `{o[1]}` without a preceding read")
+                continue
+            if o[0] == "read":
+                if o[1] in seen:
+                    continue
+                seen = seen | {o[1]}
+                var = self.variant(o[1])
+                if var is not None:
+                    if o[1] not in VARIANT_SLOT:
+                        raise TranslateError(f"`{o[1]}` has two representations (outside the vocabulary)")
+                    o = ("readKeyed", o[1], var[0], self.always_revalidated(t[1][i + 1:], t[2], o[1]))
+            elif o[0] == "pop":
+                seen = seen - {o[1]}
+            out.append(o)
+        return mk_ops(out, self.resolve(t[2], seen))
+
+
+def render_tree(t, slot):
+    """-> Lean term of type `List MemoOp` ("born" ops are not rendered here)"""
+    if t[0] == "if":
+        return f"(if {render_guard(t[1])} then {render_tree(t[2], slot)} else {render_tree(t[3], slot)})"
+    if t[0] != "ops":
+        return "[]"
+    items = []
+    for o in t[1]:
+        if o[0] == "read":
+            items.append(f".read {slot(o[1])}")
+        elif o[0] == "readKeyed":
+            s_on, s_off, g = VARIANT_SLOT[o[1]], slot(o[1]), SETTING_ATOM[o[2]][1]
+            items.append(f".readKeyed (if {g} then {s_on} else {s_off}) (if {g} then {s_off} else {s_on}) {'true' if o[3] else 'false'}")
+        elif o[0] == "pop":
+            items.append(f".pop {slot(o[1])}")
+            if o[1] in VARIANT_SLOT:
+                items.append(f".pop {VARIANT_SLOT[o[1]]}")
+    rest = render_tree(t[2], slot)
+    lst = "[" + ", ".join(items) + "]"
+    return lst if rest == "[]" else (rest if not items else f"({lst} ++ {rest})")
+
+
 class Translator:
     def __init__(self, repo):
         self.src = Source(repo)
@@ -307,9 +775,124 @@ class Translator:
                     r = src.resolve(cls, m)
                     if r is not None and r[1] is not fn and cached_decorator(r[1]) is None and registers_hook(r[1]):
                         hooked = True
+            var, deps, body_settings = None, [], []
+            if cls in STRATEGIES:
+                w = Walker(src, cls)
+                v = w.variant_of(fn)
+                if v is not None:
+                    if name not in VARIANT_SLOT:
+                        raise TranslateError(f"{c}.{fn.name}: `{name}` has two representations (outside the vocabulary)")
+                    var = SETTINGS.index(v[0])
+                # other memo names the body reads, on any path
+                body = w.block(fn.body, {}, {"owner": c, "stack": ((c, fn.name),), "kret": lambda: END}, lambda e: END)
+                deps = sorted({self.slot(o[1], f"{c}.{fn.name}") for o in tree_ops(body) if o[0] == "read"})
+                body_settings = sorted(self.body_settings(cls, fn, set()))
             out.append({"slot": self.slot(name, f"{c}.{fn.name}"), "name": name, "ignore": ign, "hooked": hooked,
-                        "owner": c, "method": fn.name})
+                        "owner": c, "method": fn.name, "variantOn": var, "deps": deps, "bodySettings": body_settings})
         out.sort(key=lambda d: d["slot"])
+        return out
+
+    def body_settings(self, cls, fn, seen):
+        """ids of the settings of the vocabulary that the body tests, following un-cached methods of self"""
+        out = set()
+        if id(fn) in seen:
+            return out
+        seen.add(id(fn))
+        for n in ast.walk(fn):
+            if (isinstance(n, ast.Attribute) and isinstance(n.value, ast.Attribute) and isinstance(n.value.value, ast.Name)
+                    and n.value.value.id == "settings" and n.value.attr in SETTINGS):
+                out.add(SETTINGS.index(n.value.attr))
+            if is_self_attr(n):
+                r = self.src.resolve(cls, n.attr)
+                if r is not None and cached_decorator(r[1]) is None:
+                    out |= self.body_settings(cls, r[1], seen)
+        return out
+
+    # ---------------------------------------------------------------- what a prediction reads / creates / pops
+    def access(self):
+        """-> (Lean `fun cls w nan c => …`, per-class trees)"""
+        ids = [n for n, _ in CLASSES]
+        trees, parts = {}, []
+        for cls in STRATEGIES:
+            w = Walker(self.src, cls)
+            t = w.walk("exact_prediction")
+            if any(o[0] == "born" for o in tree_ops(t)):
+                raise TranslateError(f"{cls}.exact_prediction creates a strategy object (outside the vocabulary)")
+            trees[cls] = t
+            parts.append(f"if cls == {ids.index(cls)} then {render_tree(t, lambda n: self.slot(n, cls))}")
+        return "fun cls w nan c =>\n      " + "\n      else ".join(parts) + "\n      else []", trees
+
+    def fantasy_access(self):
+        """-> (Lean `fun cls c => …` reads of get_fantasy_strategy, Lean `fun cls => …` names the new strategy is born with)"""
+        ids = [n for n, _ in CLASSES]
+        reads, born, trees = [], [], {}
+        for cls in STRATEGIES:
+            w = Walker(self.src, cls)
+            t = w.walk("get_fantasy_strategy")
+            trees[cls] = t
+            names = []
+            for o in tree_ops(t):
+                if o[0] == "born" and o[1] not in names:
+                    names.append(o[1])
+
+            def paths(t):
+                if t[0] == "ops":
+                    return [[o for o in t[1] if o[0] == "born"] + p for p in paths(t[2])]
+                if t[0] == "if":
+                    return paths(t[2]) + paths(t[3])
+                return [[]] if t == END else []
+            for p_ in paths(t):
+                if [o[1] for o in p_] != names:
+                    raise TranslateError(f"{cls}.get_fantasy_strategy: the new strategy's memo entries depend on the path")
+            reads.append(f"if cls == {ids.index(cls)} then {render_tree(t, lambda n: self.slot(n, cls))}")
+            born.append(f"if cls == {ids.index(cls)} then [{', '.join(str(self.slot(n, cls)) for n in names)}]")
+        return ("fun cls c =>\n      " + "\n      else ".join(reads) + "\n      else []",
+                "fun cls =>\n      " + "\n      else ".join(born) + "\n      else []", trees)
+
+    def ctor_clones(self):
+        """class ids whose `__init__` registers `inducing_points` (parameter or buffer) from a *copy* of the tensor it
+        is given — two models built from the same tensor must not share storage (an optimiser step / load_state_dict
+        on one would move the other's inducing points under its eval-mode caches)"""
+        import re
+        ids = [n for n, _ in CLASSES]
+        out = []
+        is_clone = re.compile(r"^inducing_points(\.detach\(\))?\.clone\(\)$")
+        is_view = re.compile(r"^inducing_points\.(unsqueeze|contiguous|to|type_as|expand|view|reshape)\(")
+        for cls in ("_VariationalStrategy", "InducingPointKernel"):
+            fn = self.src.methods(cls).get("__init__")
+            if fn is None:
+                raise TranslateError(f"{cls}.__init__ not found")
+            state = {"fresh": False, "sites": []}
+
+            def scan(stmts):
+                for st in stmts:
+                    if isinstance(st, ast.Assign) and len(st.targets) == 1 and isinstance(st.targets[0], ast.Name) \
+                            and st.targets[0].id == "inducing_points":
+                        v = _src(st.value)
+                        if is_clone.match(v):
+                            state["fresh"] = True
+                        elif not is_view.match(v):
+                            state["fresh"] = False
+                    for n in ast.walk(st) if not isinstance(st, (ast.If, ast.For, ast.While, ast.With, ast.Try)) else []:
+                        if isinstance(n, ast.Call) and is_self_attr(n.func) and n.func.attr in ("register_parameter", "register_buffer"):
+                            args = {kw.arg: kw.value for kw in n.keywords}
+                            pos = list(n.args)
+                            name = args.get("name", pos[0] if pos else None)
+                            if not (isinstance(name, ast.Constant) and name.value == "inducing_points"):
+                                continue
+                            val = args.get("parameter", args.get("tensor", pos[1] if len(pos) > 1 else None))
+                            if isinstance(val, ast.Call) and _src(val.func) in ("torch.nn.Parameter", "nn.Parameter", "Parameter") and val.args:
+                                val = val.args[0]
+                            v = _src(val) if val is not None else ""
+                            state["sites"].append(bool(is_clone.match(v)) or (v == "inducing_points" and state["fresh"]))
+                    for sub in ("body", "orelse", "finalbody"):
+                        if isinstance(st, (ast.If, ast.For, ast.While, ast.With, ast.Try)):
+                            scan(getattr(st, sub, []) or [])
+            scan(fn.body)
+            if not state["sites"]:
+                raise TranslateError(f"{cls}.__init__: registration of `inducing_points` not found")
+            if all(state["sites"]):
+                out.append(ids.index(cls))
         return out
 
     def attr_caches(self, cls):
@@ -714,6 +1297,9 @@ class Translator:
         T["defaultReadsCovarCache"] = self.covar_read_guard()
         (T["fantasyNeedsStrategy"], T["fantasyNulled"], T["fantasyRestored"], T["fantasyRestoreInFinally"]) = self.fantasy()
         T["hookClearsWholeMemo"], T["memoKeyHonoursArgs"] = self.memoize()
+        T["ctorClones"] = self.ctor_clones()
+        T["access"], self.access_trees = self.access()
+        T["fantasyAccess"], T["fantasyBorn"], self.fantasy_trees = self.fantasy_access()
         T["unmodelled"] = self.unmodelled_subclasses()
         self.table = T
         return T
@@ -752,12 +1338,17 @@ class Translator:
         L = ["/- GENERATED by harness/translate/g2_cache_table.py from the working tree — do not edit. -/",
              "import GPVerif.Model.CacheSM", "", "namespace Gen.CacheTable", "open CacheSM", "",
              "def slotNames : List String :=", "  [" + ", ".join(f'"{s}"' for s in SLOTS) + "]", "",
-             "def classNames : List String :=", "  [" + ", ".join(f'"{n}"' for n, _ in CLASSES) + "]", ""]
+             "def classNames : List String :=", "  [" + ", ".join(f'"{n}"' for n, _ in CLASSES) + "]", "",
+             "def settingNames : List String :=", "  [" + ", ".join(f'"{n}"' for n in SETTINGS) + "]", ""]
         for c in T["classes"]:
             L.append(f"/-- `{c['name']}`" + "".join(f"; `{d['name']}` ← `{d['owner']}.{d['method']}`" for d in c["cached"]) + " -/")
             L.append(f"def c_{c['name']} : ClassInfo :=")
             L.append(f"  {{ id := {c['id']}, bases := [{', '.join(map(str, c['bases']))}], isModule := {b(c['isModule'])},")
-            L.append("    cached := [" + ", ".join(f"⟨{d['slot']}, {b(d['ignore'])}, {b(d['hooked'])}⟩" for d in c["cached"]) + "],")
+            def opt(v):
+                return "none" if v is None else f"some {v}"
+            L.append("    cached := [" + ", ".join(
+                f"⟨{d['slot']}, {b(d['ignore'])}, {b(d['hooked'])}, {opt(d['variantOn'])}, {d['deps']}, {d['bodySettings']}⟩"
+                for d in c["cached"]) + "],")
             L.append("    attrCaches := [" + ", ".join(f"⟨{a['slot']}, {b(a['storeEvalOnly'])}, {b(a['readEvalOnly'])}⟩" for a in c["attrCaches"]) + "],")
             L.append("    clearCache := [" + ", ".join(self._eff(e) for e in c["clearCache"]) + "] }")
             L.append("")
@@ -776,7 +1367,11 @@ class Translator:
         L.append(f"    fantasyRestored := [{', '.join(map(str, T['fantasyRestored']))}],")
         L.append(f"    fantasyRestoreInFinally := {b(T['fantasyRestoreInFinally'])},")
         L.append(f"    hookClearsWholeMemo := {b(T['hookClearsWholeMemo'])},")
-        L.append(f"    memoKeyHonoursArgs := {b(T['memoKeyHonoursArgs'])} }}")
+        L.append(f"    memoKeyHonoursArgs := {b(T['memoKeyHonoursArgs'])},")
+        L.append(f"    ctorClones := {T['ctorClones']},")
+        L.append(f"    access := {T['access']},")
+        L.append(f"    fantasyAccess := {T['fantasyAccess']},")
+        L.append(f"    fantasyBorn := {T['fantasyBorn']} }}")
         L.append("")
         L.append("/-- subclasses found in the package that are listed but not modelled: " + ", ".join(T["unmodelled"]) + " -/")
         L.append(f"def unmodelledCount : Nat := {len(T['unmodelled'])}")
